@@ -3,36 +3,36 @@ package main
 import "regexp"
 
 func init() {
-	register(&propSpec{ID: "C02", MinFuncs: 40, Check: checkC02,
+	register(&propSpec{ID: "C02", SeqScope: Scope{Include: []string{"pkg/mpc/sharing/scheme/", "pkg/mpc/sharing/accessstructures/"}}, MinSeq: 40, MinFuncs: 40, Check: checkC02,
 		Scope: Scope{Include: []string{"pkg/mpc/sharing/accessstructures/", "pkg/mpc/sharing/scheme/"}}})
 	register(&propSpec{ID: "C04", StoreScope: Scope{Include: []string{"pkg/mpc/"}, Exclude: []string{"pkg/mpc/sharing/"}}, MinStores: 50, FrameScope: Scope{Include: []string{"pkg/mpc/"}, Exclude: []string{"pkg/mpc/sharing/", "pkg/mpc/rvole/", "pkg/mpc/session/", "pkg/mpc/zero/przs/"}}, MinFrame: 5, MinFuncs: 150, Check: checkC04,
 		Scope: Scope{Include: []string{"pkg/mpc/", "pkg/network/mpc.go", "pkg/base/errors.go"}, Exclude: []string{"pkg/mpc/sharing/"}}})
-	register(&propSpec{ID: "C05", MinFuncs: 20, Check: checkC05,
+	register(&propSpec{ID: "C05", SeqScope: Scope{Include: []string{"pkg/mpc/sharing/vss/", "pkg/mpc/base.go"}}, MinSeq: 20, MinFuncs: 20, Check: checkC05,
 		Scope: Scope{Include: []string{"pkg/mpc/sharing/vss/", "pkg/base/mat/module_valued.go", "pkg/mpc/base.go"}}})
 	register(&propSpec{ID: "C06", StoreScope: Scope{Include: []string{"pkg/mpc/redistribute/", "pkg/mpc/zero/hjky/"}}, MinStores: 3, MinFuncs: 8, Check: checkC06,
 		Scope: Scope{Include: []string{"pkg/mpc/redistribute/", "pkg/mpc/zero/hjky/"}}})
 	register(&propSpec{ID: "C07", Check: checkC07})
-	register(&propSpec{ID: "C08", StoreScope: Scope{Include: []string{"pkg/proofs/"}}, MinStores: 3, FrameScope: Scope{Include: []string{"pkg/proofs/"}}, MinFrame: 8, MinFuncs: 100, Check: checkC08,
+	register(&propSpec{ID: "C08", SeqScope: Scope{Include: []string{"pkg/proofs/"}}, MinSeq: 100, StoreScope: Scope{Include: []string{"pkg/proofs/"}}, MinStores: 3, FrameScope: Scope{Include: []string{"pkg/proofs/"}}, MinFrame: 8, MinFuncs: 100, Check: checkC08,
 		Scope: Scope{Include: []string{"pkg/proofs/"}}})
 	register(&propSpec{ID: "C09", StoreScope: Scope{Include: []string{"pkg/ot/", "pkg/mpc/rvole/"}}, MinStores: 5, FrameScope: Scope{Include: []string{"pkg/ot/", "pkg/mpc/rvole/"}}, MinFrame: 4, MinFuncs: 30, Check: checkC09,
 		Scope: Scope{Include: []string{"pkg/ot/", "pkg/mpc/rvole/"}}})
 	register(&propSpec{ID: "C10", StoreScope: Scope{Include: []string{"pkg/mpc/session/"}}, MinStores: 3, FrameScope: Scope{Include: []string{"pkg/mpc/session/", "pkg/mpc/zero/przs/", "pkg/commitments/hashcom/"}}, MinFrame: 3, MinFuncs: 10, Check: checkC10,
 		Scope: Scope{Include: []string{"pkg/mpc/session/", "pkg/mpc/zero/przs/", "pkg/commitments/hashcom/"}}})
-	register(&propSpec{ID: "C11", StoreScope: Scope{Include: []string{"pkg/network/"}}, MinStores: 1, MinFuncs: 20, Check: checkC11,
+	register(&propSpec{ID: "C11", SeqScope: Scope{Include: []string{"pkg/"}, KeyRe: regexp.MustCompile(`\.Run$|^pkg/network/exchange\.|^pkg/network/echo\.|^pkg/network\.(Send|Receive)`)}, MinSeq: 12, StoreScope: Scope{Include: []string{"pkg/network/"}}, MinStores: 1, MinFuncs: 20, Check: checkC11,
 		Scope: Scope{Include: []string{"pkg/network/"}}})
 	register(&propSpec{ID: "C12", MinFuncs: 100, Check: checkC12,
 		Scope: Scope{Include: []string{"pkg/"}, KeyRe: regexp.MustCompile(`\.UnmarshalCBOR$|^pkg/base/serde\.`)}})
-	register(&propSpec{ID: "C13", MinFuncs: 60, Check: checkC13,
+	register(&propSpec{ID: "C13", SeqScope: Scope{Include: []string{"pkg/base/curves/"}, Exclude: []string{"pkg/base/curves/impl/rfc9380/"}, KeyRe: regexp.MustCompile(`From|Unmarshal|SetBytes|Hash`)}, MinSeq: 40, MinFuncs: 60, Check: checkC13,
 		Scope: Scope{Include: []string{"pkg/base/curves/"}, Exclude: []string{"pkg/base/curves/impl/rfc9380/"}}})
-	register(&propSpec{ID: "C15", MinFuncs: 30, Check: checkC15,
+	register(&propSpec{ID: "C15", SeqScope: Scope{Include: []string{"pkg/signatures/"}}, MinSeq: 60, MinFuncs: 30, Check: checkC15,
 		Scope: Scope{Include: []string{"pkg/signatures/"}}})
-	register(&propSpec{ID: "C16", MinFuncs: 20, Check: checkC16,
+	register(&propSpec{ID: "C16", SeqScope: Scope{Include: []string{"pkg/encryption/"}}, MinSeq: 40, MinFuncs: 20, Check: checkC16,
 		Scope: Scope{Include: []string{"pkg/encryption/", "pkg/base/nt/znstar/"}}})
 	register(&propSpec{ID: "C17", MinFuncs: 40, Check: checkC17,
 		Scope: Scope{Include: []string{"pkg/base/nt/"}}})
-	register(&propSpec{ID: "C18", FrameScope: Scope{Include: []string{"pkg/commitments/"}}, MinFrame: 2, MinFuncs: 20, Check: checkC18,
+	register(&propSpec{ID: "C18", SeqScope: Scope{Include: []string{"pkg/commitments/"}}, MinSeq: 40, FrameScope: Scope{Include: []string{"pkg/commitments/"}}, MinFrame: 2, MinFuncs: 20, Check: checkC18,
 		Scope: Scope{Include: []string{"pkg/commitments/", "pkg/encryption/", "pkg/base/nt/znstar/"}}})
-	register(&propSpec{ID: "C19", FrameScope: Scope{Include: []string{"pkg/transcripts/", "pkg/hashing/", "pkg/base/curves/impl/rfc9380/"}}, MinFrame: 3, MinFuncs: 15, Check: checkC19,
+	register(&propSpec{ID: "C19", SeqScope: Scope{Include: []string{"pkg/base/curves/impl/points/", "pkg/base/curves/impl/rfc9380/", "pkg/transcripts/"}}, MinSeq: 20, FrameScope: Scope{Include: []string{"pkg/transcripts/", "pkg/hashing/", "pkg/base/curves/impl/rfc9380/"}}, MinFrame: 3, MinFuncs: 15, Check: checkC19,
 		Scope: Scope{Include: []string{"pkg/transcripts/", "pkg/base/curves/impl/rfc9380/", "pkg/hashing/"}}})
 }
 
@@ -44,6 +44,9 @@ func genericGuards(r *Run) {
 	r.CheckGuardInventory(r.Prop+".G1", r.Prop+"_guards.json", spec.Scope, spec.MinFuncs)
 	if r.Prop != "C12" {
 		r.CheckCondInventory(r.Prop+".K1", r.Prop+"_conds.json", spec.Scope, spec.MinFuncs/2)
+	}
+	if len(spec.SeqScope.Include) > 0 {
+		r.CheckCallSeq(r.Prop+".Q1", r.Prop+"_calls.json", spec.SeqScope, spec.MinSeq)
 	}
 	if len(spec.StoreScope.Include) > 0 {
 		r.CheckStoreGuards(r.Prop+".V1", r.Prop+"_stores.json", spec.StoreScope, spec.MinStores)
